@@ -297,7 +297,14 @@ where
     }
 
     pub fn entry(&'_ mut self, key: Handle) -> Entry<'_, T> {
-        let ind = self.find_ind(key);
+        let mut ind = self.find_ind(key);
+        let is_new_key = unsafe { *self.handles.as_ptr().add(ind) != key };
+        if is_new_key && (self.count + 1) as f32 > self.capacity as f32 * MAX_LOAD {
+            // inserting via the entry must keep the load factor, else the table fills up and
+            // probing never terminates
+            self.grow().expect("Failed to grow the table");
+            ind = self.find_ind(key);
+        }
 
         let pl = unsafe {
             if *self.handles.as_ptr().add(ind) != key {
